@@ -33,6 +33,15 @@ def do_import(src, prop):
         s = os.path.join(os.path.dirname(src.rstrip('/')), f)
         if os.path.isfile(s) and f.endswith('.py'):
             shutil.copy(s, os.path.join(dst, f))
+    # helper packages next to the mutants (directories starting with "_", e.g. a small VM the demos import)
+    par = os.path.dirname(src.rstrip('/'))
+    for f in os.listdir(par):
+        if f.startswith('_') and os.path.isdir(os.path.join(par, f)) and f != '__pycache__':
+            shutil.copytree(os.path.join(par, f), os.path.join(dst, f), dirs_exist_ok=True,
+                            ignore=shutil.ignore_patterns('__pycache__', '*.pyc'))
+    if os.path.exists(os.path.join(dst, 'meta.json')):
+        print('kept existing meta for', mid)
+        return mid
     meta = {'id': mid, 'property': prop, 'origin': 'independent sub-agent given only the property text and a scratch worktree',
             'needs_to_manifest': '', 'confirmed': {}, 'detected_by': {}}
     rd = os.path.join(dst, 'README.md')
@@ -77,6 +86,9 @@ def run_demo(mid, wt):
             shutil.copy(os.path.join(d, f), os.path.join(tgt, f))
             if f.endswith('.py') and f not in ('demo.py',):
                 shutil.copy(os.path.join(d, f), os.path.join(wt, 'mutants', f))
+    for f in os.listdir(d):
+        if f.startswith('_') and os.path.isdir(os.path.join(d, f)):
+            shutil.copytree(os.path.join(d, f), os.path.join(wt, 'mutants', f), dirs_exist_ok=True)
     env = dict(os.environ, PYTHONPATH=wt, PYTHONDONTWRITEBYTECODE='1')
     rc, out = sh(['/venv/bin/python', os.path.join('mutants', name, 'demo.py')], cwd=wt, env=env, timeout=600)
     return rc, out[-1500:]
